@@ -9,6 +9,8 @@ import (
 	"go.sia.tech/coreutils/chain"
 	"go.sia.tech/coreutils/testutil"
 	"go.sia.tech/coreutils/wallet"
+	"go.uber.org/zap"
+	"go.uber.org/zap/zapcore"
 )
 
 // walletCM is the wallet's ChainManager: the real manager, except that the two
@@ -28,6 +30,31 @@ func (c *walletCM) UpdateV2TransactionSet(txns []types.V2Transaction, from, to t
 func (c *walletCM) AddV2PoolTransactions(basis types.ChainIndex, txns []types.V2Transaction) (bool, error) {
 	defer c.g.Through("cm.AddV2PoolTransactions", c.armed.Load())()
 	return false, nil
+}
+
+// OnReorg hands the wallet's subscription through, but records the call of the
+// returned unsubscribe function: the wallet's goroutine calls it on its way
+// out, so it tells the monitor when that goroutine really ended.
+func (c *walletCM) OnReorg(fn func(types.ChainIndex)) func() {
+	cancel := c.Manager.OnReorg(fn)
+	return func() {
+		defer c.g.Through("cm.OnReorg-unsubscribe", false)()
+		cancel()
+	}
+}
+
+// gateCore is a zap core that reports every log entry of the wallet to the gate.
+type gateCore struct{ g *Gate }
+
+func (c gateCore) Enabled(zapcore.Level) bool        { return true }
+func (c gateCore) With([]zapcore.Field) zapcore.Core { return c }
+func (c gateCore) Sync() error                       { return nil }
+func (c gateCore) Check(e zapcore.Entry, ce *zapcore.CheckedEntry) *zapcore.CheckedEntry {
+	return ce.AddCore(e, c)
+}
+func (c gateCore) Write(e zapcore.Entry, _ []zapcore.Field) error {
+	c.g.Through("log:"+e.Message, false)()
+	return nil
 }
 
 // walletStore wraps the ephemeral store; BroadcastedSets always reports one
@@ -83,7 +110,8 @@ func (w *World) NewWalletRig(key types.PrivateKey, debounce time.Duration) (*Wal
 		&walletCM{Manager: cm, g: r.G, armed: &r.armed},
 		&walletStore{EphemeralWalletStore: testutil.NewEphemeralWalletStore(), g: r.G, armed: &r.armed},
 		&walletSyncer{g: r.G, armed: &r.armed},
-		wallet.WithDebounceInterval(debounce))
+		wallet.WithDebounceInterval(debounce),
+		wallet.WithLogger(zap.New(gateCore{r.G})))
 	if err != nil {
 		return nil, err
 	}
